@@ -539,23 +539,39 @@ Definition has_edit (edits : list (value * medit)) (k : str) : bool :=
 Definition reasons_of (edits : list (value * medit)) : list str :=
   filter (has_edit edits) function_env_keys.
 
-(** diffEnv: (up to date, reason).  [Panic] = the explicit panic "expected a diff in unequal environments". *)
-Definition diff_env (route_size : Z) (old_env new_env : value) : outcome (bool * str) :=
+(** outcome of [f.stamp()] compared with the recorded stamp (targetInfo.Data); pickling is outside this
+    model, so it is an input *)
+Inductive stamp_state := StampErr | StampEqual | StampDiffers.
+
+(** diffEnv: (up to date, reason).  An error of EqualDepth or DiffDepth is reported as the generic reason, and
+    so are environments that compare equal under a stamp that differs.  [Panic] = the explicit panic
+    "expected a diff in unequal environments". *)
+Definition diff_env (ss : stamp_state) (route_size : Z) (old_env new_env : value) : outcome (bool * str) :=
   match old_env with
   | VNone => Ok (false, s_never_run)
   | _ =>
-      match veq_d depth1000 old_env new_env with
-      | None => ErrDepth
-      | Some true => Ok (true, [])
-      | Some false =>
-          match old_env, new_env with
-          | VDict _, VDict _ =>
-              d <- diff_depth route_size depth1000 old_env new_env ;;
-              match d with
-              | Some (DMap _ _ edits) => Ok (false, reason (reasons_of edits))
-              | _ => Panic
-              end
-          | _, _ => Ok (false, s_environment_changed)
-          end
+      match ss with
+      | StampEqual => Ok (true, [])
+      | _ =>
+        match veq_d depth1000 old_env new_env with
+        | None => Ok (false, s_environment_changed)
+        | Some true =>
+            match ss with
+            | StampErr => Ok (true, [])
+            | _ => Ok (false, s_environment_changed)
+            end
+        | Some false =>
+            match old_env, new_env with
+            | VDict _, VDict _ =>
+                match diff_depth route_size depth1000 old_env new_env with
+                | Ok (Some (DMap _ _ edits)) => Ok (false, reason (reasons_of edits))
+                | Ok _ => Panic
+                | ErrDepth => Ok (false, s_environment_changed)
+                | Panic => Panic
+                | OutOfFuel => OutOfFuel
+                end
+            | _, _ => Ok (false, s_environment_changed)
+            end
+        end
       end
   end.
